@@ -85,6 +85,39 @@ pub(crate) mod verif_kani {
         assert!(c.count() == n0.wrapping_add(1), "C18.alloc_counts_one_call");
     }
 
+    /// The very FIRST tracked call on a thread (its counters do not exist yet) is counted like any other.
+    #[kani::proof]
+    #[kani::unwind(4)]
+    fn first_alloc_on_fresh_thread_is_counted() {
+        let a = Allocator::new(Spy::new(kani::any()));
+        let which: u8 = kani::any();
+        kani::assume(which < 3);
+        let l = any_layout();
+        let new_size: usize = kani::any();
+        // no get_or_init_thread_counters() before this point: the thread-local counters are uninitialised
+        let expect = match which {
+            0 => {
+                let _ = unsafe { a.alloc(l) };
+                l.size()
+            }
+            1 => {
+                let _ = unsafe { a.alloc_zeroed(l) };
+                l.size()
+            }
+            _ => {
+                let _ = unsafe { a.realloc(8 as *mut u8, l, new_size) };
+                new_size
+            }
+        };
+        let c = get_or_init_thread_counters();
+        assert!(c.count() == 1, "C18.first_call_on_a_thread_counts_one_call");
+        assert!(c.bytes() == expect as u64, "C18.first_call_on_a_thread_counts_its_size");
+        assert!(a.inner.total_calls() == 1, "C18.first_call_forwarded_exactly_once");
+        // and the registry now holds exactly this thread's counters, so a process span sees the call too
+        let t = allocation_totals();
+        assert!(t.count == 1 && t.bytes == expect as u64, "C18.process_totals_include_first_call_of_a_new_thread");
+    }
+
     #[kani::proof]
     fn alloc_zeroed_contract() {
         let a = Allocator::new(Spy::new(kani::any()));
